@@ -36,6 +36,18 @@ impl MetricValue for OneObs {
     type Unit = unit::None;
 }
 
+/// metric value that writes SEVERAL observations in one call (what a Distribution or a closed
+/// histogram used as a source does)
+struct ManyObs(Vec<Observation>);
+impl Value for ManyObs {
+    fn write(&self, w: impl ValueWriter) {
+        w.metric(self.0.iter().copied(), metrique_writer_core::Unit::None, [], MetricFlags::empty())
+    }
+}
+impl MetricValue for ManyObs {
+    type Unit = unit::None;
+}
+
 /// the (value, occurrences) the histogram is told about, per the documented reading of an input
 fn meaning(i: &Input) -> Option<(f64, u64)> {
     match i {
@@ -293,6 +305,68 @@ pub fn check(case: &Case) -> CaseResult {
         "re-aggregating a closed exponential histogram changed it:\n first ={o_exp:?}\n second={o_again:?}"
     );
 
+    // the same observations handed over several at a time (a source that writes 1-3 observations
+    // per add_value call) must give the very same distributions
+    {
+        let mut h_multi: Histogram<ManyObs, ExponentialAggregationStrategy> = Histogram::default();
+        let shared_multi: SharedHistogram<ManyObs, AtomicExponentialAggregationStrategy> = SharedHistogram::default();
+        let all: Vec<Observation> = case.inputs.iter().map(&to_obs).collect();
+        let mut k = 0usize;
+        let mut step = 1usize;
+        while k < all.len() {
+            let end = (k + step).min(all.len());
+            h_multi.add_value(ManyObs(all[k..end].to_vec()));
+            shared_multi.add_value(ManyObs(all[k..end].to_vec()));
+            k = end;
+            step = step % 3 + 1;
+        }
+        let o_multi = closed_obs(&no_panic("histogram-close", || h_multi.close())?)?;
+        let o_smulti = closed_obs(&no_panic("histogram-close", || shared_multi.close())?)?;
+        for (what, o) in [("Histogram", &o_multi), ("SharedHistogram", &o_smulti)] {
+            vensure!(
+                o.len() == o_exp.len() && o.iter().zip(&o_exp).all(|(a, b)| a.0.to_bits() == b.0.to_bits() && a.1 == b.1),
+                "histogram:multi-observation-source-differs",
+                "{what}: the same observations written 1-3 per add_value call give a different distribution than one per call:\n one-per-call={o_exp:?}\n several      ={o:?}"
+            );
+        }
+        if all.len() >= 2 {
+            classes.push("multi-observation-source");
+        }
+    }
+    // folding two closed histograms into one accumulator (and a closed histogram into an
+    // accumulator that already holds data) gives the histogram of all the inputs
+    if case.inputs.len() >= 2 {
+        let half = case.inputs.len() / 2;
+        let mut ha: Histogram<OneObs, ExponentialAggregationStrategy> = Histogram::default();
+        let mut hb: Histogram<OneObs, ExponentialAggregationStrategy> = Histogram::default();
+        let mut sink = vec![];
+        for i in &case.inputs[..half] {
+            add_to(&mut ha, &mut sink, i);
+        }
+        for i in &case.inputs[half..] {
+            add_to(&mut hb, &mut sink, i);
+        }
+        let (ca, cb) = (no_panic("histogram-close", || ha.close())?, no_panic("histogram-close", || hb.close())?);
+        let mut acc: Histogram<OneObs, ExponentialAggregationStrategy> = Histogram::default();
+        <Histogram<OneObs, ExponentialAggregationStrategy> as AggregateValue<_>>::insert(&mut acc, ca);
+        <Histogram<OneObs, ExponentialAggregationStrategy> as AggregateValue<_>>::insert(&mut acc, cb);
+        let o_acc = closed_obs(&no_panic("histogram-close", || acc.close())?)?;
+        let n_acc: u128 = o_acc.iter().map(|x| x.1 as u128).sum();
+        let n_all: u128 = o_exp.iter().map(|x| x.1 as u128).sum();
+        vensure!(
+            n_acc == n_all,
+            "histogram:count-not-conserved",
+            "two closed histograms folded into one accumulator: {n_acc} occurrences, the inputs have {n_all}"
+        );
+        check_exponential(&meant, &o_acc, "two closed exponential histograms folded into one")?;
+        vensure!(
+            o_acc.len() == o_exp.len() && o_acc.iter().zip(&o_exp).all(|(a, b)| a.0.to_bits() == b.0.to_bits() && a.1 == b.1),
+            "histogram:reaggregation-changes-output",
+            "folding the closed histograms of two halves of the inputs into one accumulator differs from the histogram of all inputs:\n all   ={o_exp:?}\n folded={o_acc:?}"
+        );
+        classes.push("folded-two-closed-histograms");
+    }
+
     // sort-and-merge (allocates per occurrence: only when the total count is small)
     let total: u128 = meant.iter().map(|m| m.1 as u128).sum();
     if total <= 5000 {
@@ -530,7 +604,7 @@ pub fn run(ctx: &mut Ctx) {
             if q { 6_000 } else { 300_000 },
         )
         .threads(ctx.tier.pick(4, 8))
-        .mandatory(&["bucket-boundary", "repeated-observation", "concurrent-recording", "sort-and-merge-checked", "zero-occurrences", "distinct-values-few-ulps-apart"]),
+        .mandatory(&["bucket-boundary", "repeated-observation", "concurrent-recording", "sort-and-merge-checked", "zero-occurrences", "distinct-values-few-ulps-apart", "multi-observation-source", "folded-two-closed-histograms"]),
         move || {
             let max = if q { 300 } else { 2000 };
             (
